@@ -24,8 +24,9 @@ import json
 from . import histlib as H
 from .common import run_cases, model_output, coq_str, VERIF, CoqError
 
-GEN_DEPS = ["Handlers.v", "tr_handlers"]
+GEN_DEPS = ["Handlers.v", "tr_handlers", "Entry.v"]
 TRUSTED = [
+    "translator/tr_entry.py: PEP.solve (back-end selection, forwarding of every option, defaults of both signatures) -> Gen/Entry.v",
     "translator/tr_handlers.py: the three accessor shapes, the plan of the tail of _solve_with_wrapper (grammar in its docstring)",
     "Model/Accessors.v: Python's try/except matching (run_try), numpy's (in-place or out-of-place, as generated) add and dot on 1-D arrays reduced to their "
     "lengths; only the CLASS of an outcome is modelled (a number / a vector / a matrix vs. an exception class)",
